@@ -96,7 +96,7 @@ func (c c17) Generate(e *Env) ([]*Case, error) {
 	}
 	for i := 0; i < n; i++ {
 		p := c17Params{Clients: mixes[i%len(mixes)](), Start: starts[i%len(starts)], Sched: SchedSpec{Kind: scheds[rng.Intn(3)], Seed: rng.Int63()}}
-		if thorough && i%9 == 0 || !thorough && i%6 == 0 {
+		if thorough && i%9 == 0 || !thorough && i%6 == 0 || os.Getenv("VERIF_TWICE_ALL") != "" {
 			p.Twice = true
 		}
 		add(p)
